@@ -26,11 +26,26 @@ Theorem C15_no_false_positive : forall timeout interval, interval <= timeout ->
 Proof. exact no_false_positive. Qed.
 
 Example C15_healthy_example :
-  healthy 100 0 [KTick 100 true; KPong 130; KRecovered; KTick 200 true; KPong 290; KTick 300 true] /\
-  snd (krun 250 (k0 0) [KTick 100 true; KPong 130; KRecovered; KTick 200 true; KPong 290; KTick 300 true]) = [KPing 1 1; KPing 1 1; KPing 2 2].
+  healthy 100 0 [KTick 100 true; KPong 130; KRecovered 150; KTick 200 true; KPong 290; KTick 300 true] /\
+  snd (krun 250 (k0 0) [KTick 100 true; KPong 130; KRecovered 150; KTick 200 true; KPong 290; KTick 300 true]) = [KPing 1 1; KPing 1 1; KPing 2 2].
 Proof. split; [cbn; repeat split; discriminate || (intros H; discriminate H) || reflexivity || auto|vm_compute; reflexivity]. Qed.
 
+(* "including after an earlier recovery": a recovery leaves the keepalive exactly where Dial leaves it, so whatever
+   holds of a freshly dialled client from that moment on holds of the recovered one (finding F27: the implementation
+   used to keep the replaced connection's last-answer time; witness C15_old_rule_refuted, replayed on the real client) *)
+Theorem C15_recovered_like_fresh : forall timeout s now acts,
+  snd (krun timeout s (KRecovered now :: acts)) = snd (krun timeout (k0 now) acts).
+Proof. exact recovered_like_fresh. Qed.
+Example C15_slow_peer_fine_after_dial : no_recycle (snd (krun 250 (k0 0) (slow_peer_schedule 0))).
+Proof. exact slow_peer_fine_after_dial. Qed.
+Example C15_slow_peer_fine_after_recovery :
+  no_recycle (snd (krun 250 (mkK 3 0 3 false) (KRecovered 400 :: slow_peer_schedule 400))).
+Proof. exact slow_peer_fine_after_recovery. Qed.
+Example C15_old_rule_refuted : In KRecycle (snd (krun 250 (old_recovered (mkK 3 0 3 false)) (slow_peer_schedule 400))).
+Proof. exact old_rule_refuted. Qed.
+
 Print Assumptions C15_ping_schedule.
+Print Assumptions C15_recovered_like_fresh.
 Print Assumptions C15_peer_ping_echoed.
 Print Assumptions C15_detects_dead_within_interval_plus_timeout.
 Print Assumptions C15_no_false_positive.
